@@ -16,7 +16,8 @@ from concurrent.futures import ThreadPoolExecutor
 ROOT = os.path.dirname(os.path.dirname(os.path.abspath(__file__)))
 SCR = "/tmp/fqv-mut"
 OUT = os.path.join(ROOT, "work", "mutation")
-CORE = ["cells", "formats", "thresholds", "maskgroups", "modes", "total", "corrupt", "text", "svg", "frames", "raster", "threads", "candgroups", "conv", "fileio", "histories"]
+CORE = ["cells", "lengths", "structured", "nearblocks", "formats", "thresholds", "maskgroups", "modes", "total", "aftermath", "corrupt", "text", "svg", "callbacks", "frames", "raster", "threads", "soak",
+        "candgroups", "conv", "fileio", "fileconc", "sessions", "histories"]
 HOOKED = ["versionget", "encode", "rs", "tables", "maskop", "bestmode", "candidates", "compact", "wasm"]
 FILES = ["compact.rs", "datamasking.rs", "default.rs", "encode.rs", "hardcode.rs", "helpers.rs", "module.rs", "placement.rs", "polynomials.rs", "qr.rs", "score.rs",
          "version.rs", "wasm.rs", "convert/mod.rs", "convert/svg.rs", "convert/image.rs"]
@@ -132,6 +133,8 @@ def behaviours():
     b["fileio"] = ["--replay-in", os.path.join(w, "C19_quick", "fileio_behaviours.ndjson")]
     b["wasm"] = ["--replay-in", os.path.join(w, "C17_quick", "wasm_behaviours.ndjson"), "--alphabet", os.path.join(w, "C17_quick", "wasm_alphabet.json")]
     b["histories"] = ["--replay-in", os.path.join(w, "C14_quick", "historiesEclMask_behaviours.ndjson")]
+    b["fileconc"] = ["--replay-in", os.path.join(w, "C19_quick", "fileconc_behaviours.ndjson")]
+    b["sessions"] = ["--replay-in", os.path.join(w, "C14_quick", "sessions_behaviours.ndjson"), "--alphabet", os.path.join(w, "C14_quick", "sessions_alphabet.json")]
     for k, v in b.items():
         assert os.path.exists(v[1]), f"run ./check C14 C17 C19 first ({v[1]} missing)"
     return b
@@ -185,7 +188,7 @@ def run_mutant(w, m, base):
     return r
 
 
-CHEAP_FIRST = ["tables", "versionget", "bestmode", "compact", "conv", "text", "fileio", "wasm", "frames", "raster", "svg", "candgroups", "rs", "encode",
+CHEAP_FIRST = ["giant", "structured", "lengths", "nearblocks", "aftermath", "callbacks", "soak", "fileconc", "sessions", "tables", "versionget", "bestmode", "compact", "conv", "text", "fileio", "wasm", "frames", "raster", "svg", "candgroups", "rs", "encode",
                "maskop", "modes", "total", "corrupt", "formats", "thresholds", "maskgroups", "candidates", "threads", "histories", "cells"]
 
 
